@@ -202,7 +202,8 @@ fn is_noop(a: &Act, cur: &Option<Val>) -> bool {
     }
 }
 
-fn gen_actuals(rng: &mut Rng, case: &Case, out: &mut Sink) -> BTreeMap<Key, Act> {
+/// `deleted`: keys the committed state holds and the parent overlay deletes (absent in the view)
+fn gen_actuals(rng: &mut Rng, case: &Case, deleted: &[Key], out: &mut Sink) -> BTreeMap<Key, Act> {
     let mut acc: BTreeMap<Key, Act> = BTreeMap::new();
     for f in &case.foci {
         let d = f.prefix.len();
@@ -211,6 +212,12 @@ fn gen_actuals(rng: &mut Rng, case: &Case, out: &mut Sink) -> BTreeMap<Key, Act>
         if let Some(l) = f.leaf {
             if rng.chance(4, 5) {
                 keys.push(l);
+            }
+        }
+        for k in deleted.iter().filter(|k| has_prefix(k, &f.prefix)) {
+            if rng.chance(3, 4) && !keys.contains(k) {
+                keys.push(*k);
+                out.count("batch_key_deleted_by_parent_overlay");
             }
         }
         while keys.len() < m {
@@ -259,8 +266,16 @@ fn gen_actuals(rng: &mut Rng, case: &Case, out: &mut Sink) -> BTreeMap<Key, Act>
                 5 => *rng.pick(&[6usize, 2, 4]),
                 _ => rng.below(9),
             };
+            // a key the overlay deleted: mostly blind writes (the prior must come from the overlay, not the store)
+            let which = if deleted.contains(k) && rng.chance(2, 3) { *rng.pick(&[1usize, 2, 1]) } else { which };
             let a = gen_act(rng, which, cur.clone(), &leafval);
             acc.insert(*k, a);
+        }
+    }
+    for k in deleted {
+        if !acc.contains_key(k) && rng.chance(1, 2) {
+            let w = *rng.pick(&[1usize, 2, 5, 6]);
+            acc.insert(*k, gen_act(rng, w, None, &None));
         }
     }
     // a few operations elsewhere
@@ -464,7 +479,8 @@ fn run_case(rng: &mut Rng, n: usize, rb: bool, db: &Db, committed: &mut Map, out
     let view_txt: Vec<(Key, Option<Val>)> = view.iter().map(|(k, v)| (*k, Some(v.clone()))).collect();
     out.line(format!("view {}", kv_text(&view_txt)), hex(&prev_root));
 
-    let mut acts: Vec<(Key, Act)> = gen_actuals(rng, &case, out).into_iter().collect();
+    let deleted: Vec<Key> = if with_overlay { base.keys().filter(|k| !view.contains_key(*k)).cloned().collect() } else { vec![] };
+    let mut acts: Vec<(Key, Act)> = gen_actuals(rng, &case, &deleted, out).into_iter().collect();
 
     // C01: what the session reads is the view
     for (k, _) in acts.iter() {
